@@ -5,6 +5,9 @@ parameter / wiring; d first integral.  All by partial evaluation of the kernels 
 and polynomial identity testing modulo the two distance radicals.
 
 c-memo  caches of compiled right-hand sides are keyed by everything baked into the kernel (hv.memo)
+
+c (round 3)  system wiring decided on two model systems with equal body names in one interpreter (module-level state persists):
+   each receives the compiled systems of its own mu;  b-stm: the C03 interpretation of _compute_stm re-filed (coherent 42-vector in every direction)
 """
 from __future__ import annotations
 
